@@ -747,6 +747,23 @@ def _run(spec, rec, d):
         A.close()
 
 
+def _doane_width(v):
+    """Doane's formula (bin width) on finite values, transcribed from the reference
+    given in dclab's documentation"""
+    v = np.asarray(v, dtype=float)
+    n = v.size
+    if n < 3:
+        return float("nan")
+    m = v.mean()
+    s2 = np.mean((v - m) ** 2)
+    if not s2 > 0:
+        return float("nan")
+    g1 = np.mean((v - m) ** 3) / s2 ** 1.5
+    sg = math.sqrt(6 * (n - 2) / ((n + 1) * (n + 3)))
+    k = 1 + math.log2(n) + math.log2(1 + abs(g1) / sg)
+    return float(v.max() - v.min()) / k
+
+
 def degenerate(exs, eys):
     """KDE input for which raising is accepted (the estimators / the grid are
     undefined): < 3 valid events (jointly or per axis) or a zero range"""
@@ -1036,6 +1053,29 @@ def q_contour(c, q):
             rec.check(g.size == int(math.ceil(ratio)), "contour/grid/accuracy",
                       lambda: f"{nm}: {g.size} grid points for range/accuracy = "
                               f"{ratio!r}")
+    if xacc is None:
+        # documented default: a fifth of Doane's bin width of the valid selected
+        # events (in the plot's scale)
+        # (dclab takes the width from the events that are valid on that axis and the
+        # range from the events valid on both - both are "finite selected events")
+        for nm, g, e, ax in (("x", xg, ex, exs[_finite(exs)]),
+                             ("y", yg, ey, eys[_finite(eys)])):
+            a = _doane_width(ax) / 5
+            rng_ = float(e.max() - e.min())
+            if not (np.isfinite(a) and a > 0 and rng_ > 0):
+                rec.skip("contour-default-accuracy-undefined")
+                continue
+            ratio = rng_ / a
+            if abs(ratio - round(ratio)) < 1e-6 or ratio > 1e6:
+                rec.skip("contour-num-ambiguous")
+                continue
+            rec.cls("contour:default-accuracy-checked")
+            if e.size < exs.size:
+                rec.cls("contour:default-accuracy-with-invalid-events")
+            rec.check(g.size == int(math.ceil(ratio)), "contour/grid/default-accuracy",
+                      lambda: f"{nm}: {g.size} grid points, Doane's width of the "
+                              f"{ax.size} valid selected events / 5 gives "
+                              f"{int(math.ceil(ratio))} (range/accuracy = {ratio!r})")
     if xg.size < 2 or yg.size < 2:
         rec.skip("contour-grid<2")
         return
